@@ -20,6 +20,8 @@ def case_strategy(tier, kinds, dims=(1, 2, 2, 2, 3), kmax=5, **kw):
         if not extra_unused:
             names = set(fv)
         prows = draw(specs.param_rows(names, kmax=kmax, ks=ks)) if names else {}
+        from hypothesis import assume
+        assume(specs.ratio_ok_rows(dc["E"], prows))
         return {"dom": dc, "prows": prows, "rng": draw(st.integers(0, 2 ** 31 - 1))}
     return s()
 
